@@ -81,6 +81,7 @@ HAND = [
     ("c12-e-on-every-packet", "codecs/vp9_packet.go", "\t\tif payloadDataRemaining == currentFragmentSize {\n\t\t\tout[0] |= 0x04 // E=1\n\t\t}\n\n\t\tout[1] = byte(p.pictureID>>8) | 0x80\n\t\tout[2] = byte(p.pictureID)\n\n\t\tcopy(out[headerSize:]",
      "\t\tif payloadDataRemaining <= currentFragmentSize+1 {\n\t\t\tout[0] |= 0x04 // E=1\n\t\t}\n\n\t\tout[1] = byte(p.pictureID>>8) | 0x80\n\t\tout[2] = byte(p.pictureID)\n\n\t\tcopy(out[headerSize:]", ["C12"]),
     ("c12-pid-wrap", "codecs/vp9_packet.go", "\tif p.pictureID >= 0x8000 {\n\t\tp.pictureID = 0\n\t}", "\tif p.pictureID > 0x8000 {\n\t\tp.pictureID = 0\n\t}", ["C12"]),
+    ("c12-reset-keeps-tl0picidx", "codecs/vp9_packet.go", "\t*p = VP9Packet{videoDepacketizer: p.videoDepacketizer}\n", "\t*p = VP9Packet{videoDepacketizer: p.videoDepacketizer, TL0PICIDX: p.TL0PICIDX}\n", ["C12"]),
     ("c12-ss-r-mask", "codecs/vp9_packet.go", "\t\tR := (packet[pos] >> 2) & 0x3\n", "\t\tR := (packet[pos] >> 2) & 0x1\n", ["C12"]),
     ("c13-f16-reintroduced", "codecs/av1_packet.go",
      ["\t\tif obuSize > len(payload)-offset {\n\t\t\tbreak\n\t\t}\n",
